@@ -190,10 +190,29 @@ def single_thread_kernel(kernel):
   return k, rw.ndim
 
 
+def closure_sig(kernel):
+  try:
+    cv = inspect.getclosurevars(kernel.func).nonlocals
+  except Exception:
+    return ""
+  return json.dumps({k: (int(v) if isinstance(v, (bool, int)) else str(type(v).__name__)) for k, v in sorted(cv.items())}, sort_keys=True)
+
+
 def locate(locator):
   """locator: 'module:expr' evaluated in the module namespace, or 'capture:module:hostexpr:kernelkey'."""
   import mujoco_warp  # noqa
 
+  if locator.startswith("harvestsig:"):
+    # kernel that only exists as an object built by the host code for particular specialisation constants: re-harvest
+    # the corpus in this process and pick the kernel with the same key and the same closure constants
+    _, key, sig, mixed = locator.split("|")
+    from . import harvest
+
+    h = harvest.harvest(mixed=(mixed == "1"))
+    for L in h.get(key, []):
+      if closure_sig(L.kernel) == sig:
+        return L.kernel
+    raise RuntimeError(f"kernel {key} with closure {sig} not found by re-harvesting")
   if locator.startswith("capture:"):
     _, modn, setup, key = locator.split(":", 3)
     mod = importlib.import_module(modn)
@@ -241,18 +260,134 @@ def build_arrays(spec_args, specs):
   return vals, arrays
 
 
-def main(path):
+def run_spec_forked(path, kernel, timeout=600):
+  """replay in a forked child of THIS process: for kernels that only exist as objects here (harvested from the host code,
+  closure-specialised) and cannot be re-located by name in a fresh interpreter."""
+  import multiprocessing as mp
+
+  ctx = mp.get_context("fork")
+  r, w = ctx.Pipe(duplex=False)
+
+  def child():
+    import io as _io
+
+    try:
+      os.dup2(w.fileno(), 1)
+      os.dup2(w.fileno(), 2)
+      rc = main(path, kernel=kernel)
+    except BaseException as ex:  # noqa
+      print("replay child failed:", type(ex).__name__, ex, flush=True)
+      rc = 4
+    os._exit(rc)
+
+  p = ctx.Process(target=child)
+  p.start()
+  w.close()
+  p.join(timeout)
+  if p.is_alive():
+    p.kill()
+    return False, f"{path} (forked replay timed out)"
+  out = b""
+  try:
+    while r.poll(0):
+      out += os.read(r.fileno(), 65536)
+  except Exception:
+    pass
+  out = out.decode(errors="replace")[-3000:]
   spec = json.load(open(path))
+  if spec["kind"] == "bounds":
+    if p.exitcode not in (0, 3, 4) and ("Assertion" in out or (p.exitcode is not None and p.exitcode < 0)):
+      return True, path
+    return False, f"{path} (forked rc={p.exitcode}: {out[-300:]})"
+  if p.exitcode == 0 and "REPRODUCED" in out:
+    return True, path
+  return False, f"{path} (forked rc={p.exitcode}: {out[-400:]})"
+
+
+def main_rowpoison(spec):
+  """Confirm a wrong-row read of a per-world-batched Model field on the REAL compiled kernel with REAL launch arguments:
+  re-harvest the corpus (keeping the arguments of this kernel's launches), run every thread of world W of a launch in which
+  the field is batched, once as is and once with the wrongly indexed row poisoned; world W's threads must not notice."""
+  import warp as wp
+
+  wp.config.quiet = True
+  wp.init()
+  from . import harvest, kh
+
+  _, key, sig, mixed = spec["kernel"].split("|")
+  env = spec["env"]
+  label, wrong = env["label"], int(env["wrong_row"])
+  h = harvest.harvest(mixed=(mixed == "1"), keep_args=lambda k: k.key == key)
+  tried = 0
+  for L in h.get(key, []):
+    if closure_sig(L.kernel) != sig or L.args_np is None:
+      continue
+    specs = kh.arg_specs(L.kernel)
+    labels = [l for l, _ in specs]
+    if label not in labels:
+      continue
+    j = labels.index(label)
+    base = L.args_np[j]
+    if not isinstance(base, np.ndarray) or base.ndim < 1 or base.shape[0] < 2 or wrong >= base.shape[0]:
+      continue
+    n = base.shape[0]
+    worlds = [w for w in range(L.dim[0]) if w % n != wrong]
+    if not worlds:
+      continue
+    st, ndim = single_thread_kernel(L.kernel)
+    for W in worlds[:2]:
+      outs = []
+      for poison in (None, float("nan"), 1.0e6, -1.0e6):
+        vals = []
+        arrs = {}
+        for (lab, t), a in zip(specs, L.args_np):
+          if isinstance(a, np.ndarray):
+            a2 = a.copy()
+            if lab == label and poison is not None:
+              if a2.dtype.kind == "f":
+                a2[wrong] = poison
+              else:
+                a2[wrong] = 12345 if poison != poison or poison > 0 else -12345
+            arr = wp.array(a2, dtype=t.dtype, shape=a2.shape[: t.ndim]) if a2.size else wp.zeros(a2.shape[: t.ndim], dtype=t.dtype)
+            arrs.setdefault(id(a), arr)
+            vals.append(arrs[id(a)])
+          else:
+            vals.append(a)
+        import itertools
+
+        for rest in itertools.product(*[range(x) for x in L.dim[1:]]):
+          tid = [W] + list(rest)
+          wp.launch(st, dim=1, inputs=vals + [int(x) for x in tid[:ndim]] , device="cpu")
+        wp.synchronize()
+        outs.append([v.numpy().copy() if isinstance(v, wp.array) else None for v in vals])
+      tried += 1
+      for o in outs[1:]:
+        for (lab, t), a, b in zip(specs, outs[0], o):
+          if a is None or lab == label:
+            continue
+          if not np.array_equal(a, b, equal_nan=True):
+            print(f"REPRODUCED: launch of {key} on corpus model {L.model}: threads of world {W} change {lab} when row {wrong} of {label} (batch size {n}; world {W} must read row {W % n}) is poisoned")
+            return 0
+  print(f"NOT-REPRODUCED: {tried} world/launch combinations of {key} with a batched {label}: poisoning row {wrong} never changed what the other worlds' threads write")
+  return 3
+
+
+def main(path, kernel=None):
+  spec = json.load(open(path))
+  if spec.get("kind") == "rowpoison":
+    return main_rowpoison(spec)
   import warp as wp
 
   wp.config.quiet = True
   wp.config.mode = "debug"
   wp.config.verify_fp = False
-  wp.config.kernel_cache_dir = os.path.join(VERIF, ".wpcache", "replay_debug")
-  wp.init()
+  if kernel is None:
+    wp.config.kernel_cache_dir = os.path.join(VERIF, ".wpcache", "replay_debug")
+    wp.init()
   from . import kh
 
-  kernel = locate(spec["kernel"])
+  if kernel is None:
+    kernel = locate(spec["kernel"])
   st, ndim = single_thread_kernel(kernel)
   specs = kh.arg_specs(kernel)
   tid = list(spec["tid"])[:ndim] + [0] * max(0, ndim - len(spec["tid"]))
